@@ -381,6 +381,16 @@ func (m *MonC03) moduleInvariants(where string, idx int, ctx sdk.Context) {
 func (m *MonC03) AfterTx(o *TxOutcome) {
 	if o.Res.OK {
 		m.R.Rep.Class("C03.tx." + o.Step.K)
+		// an exit that drains an asset while another validator still carries share dust of it
+		if pa, ok := o.Pre.Assets[o.Step.Den]; ok && pa.TotalTokens.IsPositive() {
+			if qa, ok := o.Post.Assets[o.Step.Den]; ok && qa.TotalTokens.IsZero() {
+				for vo, v := range o.Pre.Vals {
+					if vo != o.Val && v.HasInfo && decAmount(v.Info.ValidatorShares, o.Step.Den).IsPositive() {
+						m.R.Rep.Class("C03.drain-resets-foreign-dust")
+					}
+				}
+			}
+		}
 	}
 	m.check("tx "+o.Step.K, o.Idx, o.Post)
 	if !m.R.Halt {
@@ -597,9 +607,11 @@ func log2(x float64) float64 {
 
 type MonC10 struct {
 	BaseMon
+	// slashes executed in the begin-block that preceded the end-block under judgement / in the current step
+	slashesSinceBlock, slashesThisStep int
 }
 
-func NewMonC10(r *Runner) *MonC10 { return &MonC10{BaseMon{r}} }
+func NewMonC10(r *Runner) *MonC10 { return &MonC10{BaseMon: BaseMon{r}} }
 func (m *MonC10) Name() string    { return "C10" }
 
 // Targets recomputes, independently of the module's code path, the alliance-minted stake each bonded
@@ -673,6 +685,7 @@ func (m *MonC10) AfterTx(o *TxOutcome) {
 }
 
 func (m *MonC10) AfterSlash(s *SlashRecord) {
+	m.slashesThisStep++
 	m.R.Rep.Class("C10.trigger.slash")
 }
 
@@ -693,6 +706,9 @@ func (m *MonC10) AfterBlock(o *BlockOutcome) {
 			nb++
 			// non-bonded validators are not adjusted in this block
 			pv := o.Pre.Vals[vo]
+			if pv != nil && pv.Exists && pv.Status == stakingtypes.Bonded && pv.ModTokens.Sign() > 0 && m.slashesSinceBlock == 0 {
+				rep.Class("C10.trigger.left-bonded-set-without-slash")
+			}
 			if pv != nil && pv.Exists && pv.Status != stakingtypes.Bonded && v.HasInfo {
 				rep.Eval("C10.unbonded-untouched")
 				if !pv.ModShares.Equal(v.ModShares) {
@@ -727,6 +743,7 @@ func (m *MonC10) AfterBlock(o *BlockOutcome) {
 			warm++
 		}
 	}
+	m.slashesSinceBlock, m.slashesThisStep = m.slashesThisStep, 0
 	rep.Class(fmt.Sprintf("C10.block/flag%v/nonbonded%d/warm%d", o.Pre.Flag, min(nb, 2), min(warm, 1)))
 	if !o.Pre.Flag {
 		rep.Class("C10.quiet-block")
@@ -1058,6 +1075,9 @@ func (m *MonC16) AfterTx(o *TxOutcome) {
 			assetState = "empty"
 			if a.TotalTokens.IsPositive() {
 				assetState = "staked"
+				if a.TotalValidatorShares.IsZero() {
+					assetState = "staked-no-shares" // every holder slashed by 100%: tokens staked, no validator shares
+				}
 			}
 			if o.Pre.Time.Before(a.RewardStartTime) {
 				assetState += "+warmup"
